@@ -138,6 +138,13 @@ func (a *altChoice) apply(s *fontSpec, L *ref.Font) {
 			p.DefaultWidthX = hi + 1 + float64(r.intn(100))
 			p.NominalWidthX = pickW()
 		}
+		if math.Abs(p.NominalWidthX) >= 99999 {
+			// beyond that a multiple of 1/16 needs more than nine digits
+			p.NominalWidthX = math.Round(p.NominalWidthX)
+		}
+		if math.Abs(p.DefaultWidthX) >= 99999 {
+			p.DefaultWidthX = math.Round(p.DefaultWidthX)
+		}
 		for _, w := range ws {
 			if math.Abs(w-p.NominalWidthX) > 32000 {
 				// width minus nominal width must fit a 16.16 number
